@@ -21,6 +21,7 @@ import (
 	"github.com/anishathalye/porcupine"
 	"github.com/google/badwolf/bql/planner/filter"
 	"github.com/google/badwolf/storage"
+	"github.com/google/badwolf/storage/memoization"
 	"github.com/google/badwolf/storage/memory"
 	"github.com/google/badwolf/triple"
 	"github.com/google/badwolf/triple/node"
@@ -270,6 +271,190 @@ func c07OptionsProbe(r *rt.Rec, rng *rand.Rand) {
 				r.Violation("options-modified-after-return/"+m, "the caller's LookupOptions value differs from its snapshot after the lookup returned", map[string]string{"lookup": q.String()})
 			}
 			r.NontrivialDistinct(1)
+		}
+	}
+}
+
+// callSync runs a lookup in the calling goroutine on a channel large enough to
+// take every element, so that the state of the channel after the call has
+// returned is a fact, not a race: closed, still open (a receive would block),
+// or the call panicked (a second close panics in the lookup itself).
+func callSync(ctx context.Context, g storage.Graph, q ref.Query, lo *storage.LookupOptions) (n int, err error, state string) {
+	const big = 4096
+	state = "closed"
+	defer func() {
+		if p := recover(); p != nil {
+			state = fmt.Sprintf("panic: %v", p)
+		}
+	}()
+	drain := func(recv func() (ok, more bool)) {
+		for {
+			ok, more := recv()
+			if !more {
+				if !ok {
+					state = "open"
+				}
+				return
+			}
+			n++
+		}
+	}
+	switch q.Method {
+	case "Objects":
+		ch := make(chan *triple.Object, big)
+		err = g.Objects(ctx, q.S, q.P, lo, ch)
+		drain(func() (bool, bool) {
+			select {
+			case _, ok := <-ch:
+				return true, ok
+			default:
+				return false, false
+			}
+		})
+	case "Subjects":
+		ch := make(chan *node.Node, big)
+		err = g.Subjects(ctx, q.P, q.O, lo, ch)
+		drain(func() (bool, bool) {
+			select {
+			case _, ok := <-ch:
+				return true, ok
+			default:
+				return false, false
+			}
+		})
+	case "PredicatesForSubject", "PredicatesForObject", "PredicatesForSubjectAndObject":
+		ch := make(chan *predicate.Predicate, big)
+		switch q.Method {
+		case "PredicatesForSubject":
+			err = g.PredicatesForSubject(ctx, q.S, lo, ch)
+		case "PredicatesForObject":
+			err = g.PredicatesForObject(ctx, q.O, lo, ch)
+		default:
+			err = g.PredicatesForSubjectAndObject(ctx, q.S, q.O, lo, ch)
+		}
+		drain(func() (bool, bool) {
+			select {
+			case _, ok := <-ch:
+				return true, ok
+			default:
+				return false, false
+			}
+		})
+	default:
+		ch := make(chan *triple.Triple, big)
+		switch q.Method {
+		case "TriplesForSubject":
+			err = g.TriplesForSubject(ctx, q.S, lo, ch)
+		case "TriplesForPredicate":
+			err = g.TriplesForPredicate(ctx, q.P, lo, ch)
+		case "TriplesForObject":
+			err = g.TriplesForObject(ctx, q.O, lo, ch)
+		case "TriplesForSubjectAndPredicate":
+			err = g.TriplesForSubjectAndPredicate(ctx, q.S, q.P, lo, ch)
+		case "TriplesForPredicateAndObject":
+			err = g.TriplesForPredicateAndObject(ctx, q.P, q.O, lo, ch)
+		default:
+			err = g.Triples(ctx, lo, ch)
+		}
+		drain(func() (bool, bool) {
+			select {
+			case _, ok := <-ch:
+				return true, ok
+			default:
+				return false, false
+			}
+		})
+	}
+	return
+}
+
+// c07ErrorPaths: every lookup, called with option values the driver rejects (and
+// with valid ones), must have closed its channel exactly once when it returns,
+// and must leave the options value alone; observed after the call returned on a
+// channel nobody else touches.
+func c07ErrorPaths(r *rt.Rec, rng *rand.Rand, wrap func(storage.Store) storage.Store, label string) {
+	ctx := context.Background()
+	st := wrap(memory.NewStore())
+	g, _ := st.NewGraph(ctx, "?g")
+	var ts []*triple.Triple
+	for i := 0; i < 18; i++ {
+		p := gen.MustTemp("p", gen.Times[i%3])
+		if i%5 == 0 {
+			p = gen.MustImm("p")
+		}
+		var o *triple.Object
+		if i%4 == 3 {
+			o = triple.NewPredicateObject(gen.MustTemp("q", gen.Times[i%3]))
+		} else {
+			o = triple.NewNodeObject(gen.VNodes[(i/3)%6])
+		}
+		ts = append(ts, gen.MustTriple(gen.VNodes[i%3], p, o))
+	}
+	g.AddTriples(ctx, ts)
+	var los []*storage.LookupOptions
+	var mustErr []bool
+	add := func(lo *storage.LookupOptions, e bool) { los = append(los, lo); mustErr = append(mustErr, e) }
+	ops := []filter.Operation{filter.Latest, filter.IsImmutable, filter.IsTemporal}
+	t1, t3 := gen.T1, gen.T3
+	for _, op := range ops {
+		for _, f := range []filter.Field{filter.PredicateField, filter.ObjectField} {
+			add(&storage.LookupOptions{LatestAnchor: true, FilterOptions: &filter.StorageOptions{Operation: op, Field: f}}, true)
+			add(&storage.LookupOptions{LatestAnchor: true, MaxElements: 1, LowerAnchor: &t1, FilterOptions: &filter.StorageOptions{Operation: op, Field: f}}, true)
+			add(&storage.LookupOptions{FilterOptions: &filter.StorageOptions{Operation: op, Field: f}}, false)
+		}
+		add(&storage.LookupOptions{FilterOptions: &filter.StorageOptions{Operation: op, Field: filter.SubjectField}}, true)
+		add(&storage.LookupOptions{MaxElements: 2, Offset: 1, UpperAnchor: &t3, FilterOptions: &filter.StorageOptions{Operation: op, Field: filter.SubjectField}}, true)
+		add(&storage.LookupOptions{FilterOptions: &filter.StorageOptions{Operation: op, Field: filter.Field(0)}}, false)
+		add(&storage.LookupOptions{FilterOptions: &filter.StorageOptions{Operation: op, Field: filter.Field(77)}}, false)
+	}
+	for _, op := range []filter.Operation{0, 77, -1} {
+		add(&storage.LookupOptions{FilterOptions: &filter.StorageOptions{Operation: op, Field: filter.PredicateField}}, false)
+		add(&storage.LookupOptions{LatestAnchor: true, FilterOptions: &filter.StorageOptions{Operation: op, Field: filter.ObjectField}}, true)
+	}
+	add(&storage.LookupOptions{LatestAnchor: true}, false)
+	add(storage.DefaultLookup, false)
+	add(&storage.LookupOptions{LowerAnchor: &t3, UpperAnchor: &t1, MaxElements: 1, Offset: 9}, false)
+	for _, m := range ref.Methods {
+		for _, t0 := range []*triple.Triple{ts[0], ts[3], ts[7], gen.MustTriple(gen.AbsentNode, gen.MustImm("absent"), triple.NewNodeObject(gen.AbsentNode))} {
+			q := ref.Query{Method: m}
+			us, up, uo := ref.Uses(m)
+			if us {
+				q.S = t0.Subject()
+			}
+			if up {
+				q.P = t0.Predicate()
+			}
+			if uo {
+				q.O = t0.Object()
+			}
+			for i, lo := range los {
+				arg := ref.CopyOptions(lo)
+				snap := ref.CopyOptions(lo)
+				r.Begin(fmt.Sprintf("error-paths(%s) %s [%s]", label, q, ref.OptionsString(lo)))
+				n, err, state := callSync(ctx, g, q, arg)
+				r.Eval(1)
+				cls := "ok-return"
+				if err != nil {
+					cls = "error-return"
+					r.Count("lookups_returning_error", 1)
+				}
+				w := map[string]interface{}{"store": label, "lookup": q.String(), "options": ref.OptionsString(lo), "elements": n, "error": fmt.Sprint(err), "channel": state}
+				switch {
+				case state == "open":
+					r.Violation("channel-not-closed/"+cls+"/"+m, fmt.Sprintf("%s returned (err=%v) and left its result channel open", m, err), w)
+				case state != "closed":
+					r.Violation("channel-closed-twice-or-panic/"+cls+"/"+m, fmt.Sprintf("%s: %s", m, state), w)
+				}
+				if mustErr[i] && err == nil && state == "closed" {
+					r.Violation("invalid-options-accepted/"+m, "LatestAnchor together with FilterOptions, or a filter on the subject field, did not give an error", w)
+				}
+				if !reflect.DeepEqual(arg, snap) {
+					r.Violation("options-modified-after-return/"+m, "the caller's LookupOptions value differs from its snapshot after the lookup returned", w)
+				}
+				if err != nil {
+					r.NontrivialDistinct(1)
+				}
+			}
 		}
 	}
 }
@@ -576,6 +761,13 @@ func init() {
 			}
 			return []rt.Phase{
 				{Name: "options-probe", N: 1, Run: func(i int, r *rt.Rec) { c07OptionsProbe(r, gen.Rng(seed, "c07o", i)) }},
+				{Name: "error-paths", N: 2, Run: func(i int, r *rt.Rec) {
+					if i == 0 {
+						c07ErrorPaths(r, gen.Rng(seed, "c07e", i), func(s storage.Store) storage.Store { return s }, "memory")
+					} else {
+						c07ErrorPaths(r, gen.Rng(seed, "c07e", i), func(s storage.Store) storage.Store { return memoization.New(s) }, "memoized")
+					}
+				}},
 				{Name: "graph-histories", N: 16, Run: func(i int, r *rt.Rec) { c07GraphHistories(r, gen.Rng(seed, "c07g", i), gh/16, i%2 == 1) }},
 				{Name: "store-histories", N: 16, Run: func(i int, r *rt.Rec) { c07StoreHistories(r, gen.Rng(seed, "c07s", i), sh/16) }},
 				{Name: "graph-histories-race", N: 16, Race: true, Run: func(i int, r *rt.Rec) { c07GraphHistories(r, gen.Rng(seed, "c07gr", i), rg/16, i%2 == 1) }},
